@@ -59,4 +59,79 @@ P_C04_run(c, run) ==
      ELSE /\ run.res.k = "ok"
           /\ obs = g.lines
 P_C04(c) == \A i \in 1..Len(c.runs) : P_C04_run(c, c.runs[i])
+
+(* ---- C12: preformatted text keeps its lines and spacing ---------------------------------- *)
+\* the document holds exactly one <pre>; meta.pw = width of the prefix of the enclosing block (0 / 2)
+RECURSIVE PreTokens(_)
+PreTokensSeq(ns) == Concat([i \in 1..Len(ns) |-> PreTokens(ns[i])])
+PreTokens(n) == IF n.k = "t" THEN n.s
+                ELSE IF n.k # "e" THEN <<>>
+                ELSE IF IsHtml(n, "br") THEN << <<NL, -1>> >>
+                ELSE PreTokensSeq(n.c)
+\* split at newlines; no-width cells other than tab/newline are dropped by the renderer
+SplitLines(cells) ==
+  LET r == FoldLeft(LAMBDA a, c : IF c[1] = NL THEN [ls |-> Append(a.ls, a.cur), cur |-> <<>>]
+                                  ELSE IF CW(c) < 0 /\ c[1] # TAB THEN a
+                                  ELSE [a EXCEPT !.cur = Append(@, c)],
+                    [ls |-> <<>>, cur |-> <<>>], cells)
+  IN Append(r.ls, r.cur)
+\* tabs to 8-column stops (at least one space)
+Expand(line) ==
+  FoldLeft(LAMBDA a, c : IF c[1] = TAB THEN LET k == 8 - (SumW(a) % 8) IN a \o Rep(C2(32), k) ELSE Append(a, c), <<>>, line)
+IsSpaceCell(c) == IsWs(c)
+NonSpaceCodes(cells) == SelectSeq(Codes(cells), LAMBDA k : ~IsWsCode(k))
+StripTrailingEmpty(ls) ==
+  LET idx == {i \in 1..Len(ls) : TrimR(ls[i]) # <<>>} IN
+  IF idx = {} THEN <<>> ELSE SubSeq(ls, 1, CHOOSE m \in idx : \A j \in idx : j <= m)
+PreNode(dom) == LET ns == NodesSeq(dom) IN ns[CHOOSE i \in 1..Len(ns) : IsHtml(ns[i], "pre")]
+\* pieces never span two source lines, in order, nothing lost.  Returns [ok, lab]: lab[k] says whether
+\* output line k starts a source line ("first"), continues one ("cont") or holds no text ("blank")
+Align(src, outs) ==
+  LET n == Len(src)
+      step(a, x) ==
+        IF ~a.ok THEN a
+        ELSE IF x = <<>> THEN [a EXCEPT !.lab = Append(@, "blank")]
+        ELSE LET cand == {j \in a.i..n : (j = a.i /\ a.pos < Len(src[j])) \/ (j > a.i /\ Len(src[j]) > 0)} IN
+             IF cand = {} THEN [a EXCEPT !.ok = FALSE]
+             ELSE LET j == CHOOSE m \in cand : \A q \in cand : m <= q
+                      p == IF j = a.i THEN a.pos ELSE 0 IN
+                  IF p + Len(x) <= Len(src[j]) /\ SubSeq(src[j], p + 1, p + Len(x)) = x
+                  THEN [i |-> j, pos |-> p + Len(x), ok |-> TRUE, lab |-> Append(a.lab, IF p > 0 THEN "cont"
+                                                   ELSE IF a.lab = <<>> \/ Last(a.lab) # "blank" THEN "first"
+                                                   ELSE "unknown")]   \* after a blank piece: cannot tell
+                  ELSE [a EXCEPT !.ok = FALSE]
+      fin == FoldLeft(step, [i |-> 1, pos |-> 0, ok |-> TRUE, lab |-> <<>>], outs)
+  IN [ok |-> fin.ok /\ (n = 0 \/ (fin.pos = Len(src[fin.i]) /\ \A j \in (fin.i + 1)..n : src[j] = <<>>)), lab |-> fin.lab]
+PTag(item) == IF Len(item) >= 3 /\ item[3] # <<>> /\ Last(item[3])[1] = "P" THEN Last(item[3])[2] ELSE -1
+C12Parts(c, run) ==
+    LET pw == MetaGet(c, "pw", 0)
+        avail == run.w - pw
+        src == SplitLines(PreTokensSeq(PreNode(Dom1(c, run)).c))
+        exp == [i \in 1..Len(src) |-> Expand(src[i])]
+        fits == \A i \in 1..Len(exp) : SumW(exp[i]) <= avail
+        outItems == [i \in 1..Len(run.res.lines) |-> StripPrefix(NoFrags(run.res.lines[i]), pw)]
+        out == [i \in 1..Len(outItems) |-> Plain(outItems[i])]
+        rich == run.route \in {"lines", "staged_lines"} /\ run.cfg.deco = "rich"
+        al == Align([i \in 1..Len(src) |-> NonSpaceCodes(src[i])], [i \in 1..Len(out) |-> NonSpaceCodes(out[i])])
+        NonSp(items) == SelectSeq(items, LAMBDA x : ~IsWs(x))
+    IN [ \* text: verbatim when it fits; otherwise conservation per source line and the width bound
+         core |-> IF fits
+                  THEN StripTrailingEmpty([i \in 1..Len(out) |-> TrimR(out[i])]) = StripTrailingEmpty([i \in 1..Len(exp) |-> TrimR(exp[i])])
+                  ELSE /\ \A i \in 1..Len(out) : SumW(out[i]) <= avail \/ CfgOf(run.cfg).overflow
+                       /\ al.ok,
+         \* rich: every cell carries exactly one Preformat flag (last in its vector); nothing is flagged
+         \* continuation when the block fits
+         tagsWeak |-> rich =>
+                  /\ \A i \in 1..Len(outItems) : \A j \in 1..Len(outItems[i]) : PTag(outItems[i][j]) \in {0, 1}
+                  /\ fits => \A i \in 1..Len(outItems) : \A j \in 1..Len(outItems[i]) : PTag(outItems[i][j]) = 0
+                  ,
+         \* ... the piece that starts a source line is flagged Preformat(false) throughout and every
+         \* character of an overflow piece Preformat(true)
+         tagsStrict |-> (rich /\ ~fits /\ al.ok) =>
+                  \A i \in 1..Len(outItems) :
+                     LET it == NonSp(outItems[i]) IN
+                     /\ al.lab[i] = "first" => \A j \in 1..Len(it) : PTag(it[j]) = 0
+                     /\ al.lab[i] = "cont" => \A j \in 1..Len(it) : PTag(it[j]) = 1 ]
+P_C12_run(c, run) == IsOk(run) => LET p == C12Parts(c, run) IN p.core /\ p.tagsWeak /\ p.tagsStrict
+P_C12(c) == \A i \in 1..Len(c.runs) : P_C12_run(c, c.runs[i])
 =============================================================================
